@@ -46,7 +46,8 @@ def setup_trunc(case, mode):
         install_h5(TP, PU, HU, TT)
 
 
-def _write_stats(ctx, env, path, tag, leaves, row_of, genes, tree):
+def _write_stats(ctx, env, path, tag, leaves, row_of, genes, tree,
+                 concrete_counts=False):
     """a statistics file with symbolic tables; returns the tables"""
     import json
     import numpy as np
@@ -58,6 +59,11 @@ def _write_stats(ctx, env, path, tag, leaves, row_of, genes, tree):
             'gt0': ints(ctx, f"{tag}.gt0", (n, g), 0, 50),
             'gt1': ints(ctx, f"{tag}.gt1", (n, g), 0, 50),
             'ge1': ints(ctx, f"{tag}.ge1", (n, g), 0, 50)}
+    if concrete_counts:
+        import numpy as _np
+        for k in ('gt0', 'gt1', 'ge1'):
+            tabs[k] = _np.array([[(3 * i + j) % 4 for j in range(g)]
+                                 for i in range(n)], dtype=object)
     with env.File(path, 'w') as f:
         f.create_dataset('col_names',
                          data=json.dumps(genes).encode('utf-8'))
